@@ -498,8 +498,8 @@ def boot_margin_checks(run, case, tables, props):
                                   predicate="boot_margin_is_ratio", signature="C02:boot-margin", replay_case=case_json(case))
 
 
-def run_and_check(run, case, driver, props):
-    """one case through implementation, model and monitors"""
+def stage1(run, case, props):
+    """run the implementation; returns a record with the driver ops this case needs"""
     res = run_case(case)
     L = light(case)
     run.case(L, True)
@@ -507,6 +507,7 @@ def run_and_check(run, case, driver, props):
     run.count("policy " + case["policy"])
     for k, v in case["election"].describe()["roles"].items():
         run.count("role " + k, v)
+    rec = {"case": case, "res": res, "ops": [], "meta": None, "ids": None, "skip": True}
     if "raises" in res:
         run.count("raised " + res["raises"])
         if res["raises"] not in ("ModelNotEnoughSubunitsException",):
@@ -514,26 +515,60 @@ def run_and_check(run, case, driver, props):
                 if p in ("C01", "C11"):
                     run.violation("estimate run failed: " + res["raises"] + ": " + res.get("msg", ""), input=L,
                                   impl=res, predicate="never_fails", signature=f"{p}:raise", replay_case=case_json(case))
-        return res
+        return rec
     tables = res["tables"]
     if "unit_data" not in tables:
-        return res
-    mout = ids = None
-    if driver is not None:
-        op, ids = split_op(case)
-        o = driver.run([op])[0]
+        return rec
+    rec["skip"] = False
+    op, ids = split_op(case)
+    rec["ids"] = ids
+    rec["ops"] = [op]
+    if case["pi_method"] != "bootstrap" and any(p in props for p in ("C01", "C02", "C03")):
+        ops, meta = level_ops(case, tables, None)
+        rec["ops"] += ops
+        rec["meta"] = meta
+    return rec
+
+
+def stage2(run, rec, outs, props):
+    """monitors + diff, given the model's answers for rec['ops'] (or None)"""
+    if rec["skip"]:
+        return
+    case, tables = rec["case"], rec["res"]["tables"]
+    mout = None
+    if outs is not None:
+        o = outs[0]
         if isinstance(o, dict) and "error" in o:
             run.broken.append("model rejected a split case: " + o["error"])
         else:
             mout = o
-    iv = check_split(run, case, tables, mout, ids, props)
+    check_split(run, case, tables, mout, rec["ids"], props)
     check_unit_rows(run, case, tables, props)
     if case["pi_method"] == "bootstrap":
         boot_margin_checks(run, case, tables, props)
-    elif any(p in props for p in ("C01", "C02", "C03")):
-        ops, meta = level_ops(case, tables, iv)
-        outs = [None] * len(ops)
-        if driver is not None and ops:
-            outs = driver.run(ops)
-        check_levels(run, case, tables, outs, meta, props)
-    return res
+    elif rec["meta"] is not None:
+        louts = outs[1:] if outs is not None else [None] * len(rec["meta"])
+        check_levels(run, case, tables, louts, rec["meta"], props)
+
+
+def run_batch(run, cases, driver, props):
+    recs = [stage1(run, c, props) for c in cases]
+    outs = None
+    if driver is not None:
+        ops = [op for r in recs for op in r["ops"]]
+        if ops:
+            try:
+                outs = driver.run(ops)
+            except C.DriverError as e:
+                run.broken.append(f"model driver failed: {e}")
+    k = 0
+    for r in recs:
+        n = len(r["ops"])
+        stage2(run, r, outs[k:k + n] if outs is not None else None, props)
+        k += n
+    return recs
+
+
+def run_and_check(run, case, driver, props):
+    """one case through implementation, model and monitors"""
+    return run_batch(run, [case], driver, props)[0]["res"]
